@@ -120,6 +120,12 @@ func randKey(rng *rand.Rand, nkeys int) (string, string) {
 	if rng.Intn(10) == 0 {
 		return "", nameUniverse[(k/2)%2] // a cluster-scoped object: no namespace
 	}
+	if rng.Intn(20) == 0 {
+		// names that are legal for some resources but not DNS-1123 (RBAC objects
+		// are called system:node, kubeadm:..., and names may contain upper case
+		// in what a fake hands out)
+		return nsUniverse[k%2], pick(rng, "system:node", "Upper_Case", "a b")
+	}
 	if rng.Intn(12) == 0 {
 		// pairs of distinct keys whose parts concatenate to the same string under
 		// a separator that is legal inside names
